@@ -943,7 +943,7 @@ Qed.
 
 (* ---------------------------------------------- Mermaid lines as text *)
 From NTGen Require Import Generated.
-From Coq Require DecimalNat.
+From Coq Require DecimalNat DecimalZ.
 
 Definition S_arrow : text := [32; 45; 45; 62; 32]%Z.            (* space dash dash gt space *)
 Definition S_tarrow1 : text := [45; 45; 32; 34]%Z.              (* dash dash space quote *)
@@ -1123,4 +1123,147 @@ Proof.
   intros H. split.
   - rewrite dot_edges_with, map_length. apply desc_p_length.
   - rewrite (Permutation_length (dot_edges_exclusion_perm u s H)), app_length, map_length. reflexivity.
+Qed.
+
+(* ------------------------------------------- DOT text: dicts and keys *)
+Fixpoint aget (k : text) (d : attrs) : option text :=
+  match d with
+  | [] => None
+  | (k', v) :: r => if text_eqb k k' then Some v else aget k r
+  end.
+
+(* [dset] is the Python dict assignment: the key gets the value, other keys
+   keep theirs, the insertion order is kept and a new key goes last *)
+Lemma dset_get_same k v d : aget k (dset k v d) = Some v.
+Proof.
+  induction d as [|[k' v'] d IH]; cbn [dset aget].
+  - now rewrite text_eqb_refl.
+  - destruct (text_eqb k k') eqn:E; cbn [aget]; [now rewrite text_eqb_refl|]. now rewrite E.
+Qed.
+
+Lemma dset_get_other k v d k2 : k2 <> k -> aget k2 (dset k v d) = aget k2 d.
+Proof.
+  intros N. assert (E2 : text_eqb k2 k = false).
+  { destruct (text_eqb k2 k) eqn:E; [apply text_eqb_eq in E; contradiction|reflexivity]. }
+  induction d as [|[k' v'] d IH]; cbn [dset aget].
+  - now rewrite E2.
+  - destruct (text_eqb k k') eqn:E; cbn [aget].
+    + apply text_eqb_eq in E. subst k'. now rewrite E2.
+    + now rewrite IH.
+Qed.
+
+Lemma dset_keys k v d :
+  map fst (dset k v d) = if existsb (text_eqb k) (map fst d) then map fst d else map fst d ++ [k].
+Proof.
+  induction d as [|[k' v'] d IH]; cbn [dset map fst existsb app]; [reflexivity|].
+  destruct (text_eqb k k') eqn:E; cbn [orb map fst].
+  - apply text_eqb_eq in E. now subst.
+  - rewrite IH. now destruct (existsb (text_eqb k) (map fst d)).
+Qed.
+
+(* str(int) can be read back: two int data_ids never print alike *)
+Definition text_int (t : text) : option Decimal.int :=
+  match t with
+  | c :: r => if Z.eqb c 45 then option_map Decimal.Neg (text_uint r) else option_map Decimal.Pos (text_uint t)
+  | [] => option_map Decimal.Pos (text_uint t)
+  end.
+
+Lemma text_int_pos u : text_int (uint_text u) = Some (Decimal.Pos u).
+Proof.
+  pose proof (text_uint_text u) as H.
+  destruct u; cbn [uint_text] in *; unfold text_int; [reflexivity|..];
+    (cbn [Z.eqb Pos.eqb]; rewrite H; reflexivity).
+Qed.
+
+Lemma text_int_text i : text_int (int_text i) = Some i.
+Proof.
+  destruct i as [u|u]; cbn [int_text]; [apply text_int_pos|].
+  unfold text_int. cbn [Z.eqb Pos.eqb]. now rewrite text_uint_text.
+Qed.
+
+Lemma key_text_int_inj a b : key_text (KD (DInt a)) = key_text (KD (DInt b)) -> a = b.
+Proof.
+  cbn [key_text]. intros E.
+  pose proof (text_int_text (Z.to_int a)) as A. rewrite E, text_int_text in A. injection A as A.
+  rewrite <- (DecimalZ.of_to a), <- (DecimalZ.of_to b). now rewrite A.
+Qed.
+
+(* ------------------------------ conjunctions stated in Properties/C17.v *)
+Lemma all_first_occ_set : forall l, NoDup (first_occ l) /\ (forall k, In k (first_occ l) <-> In k l).
+Proof. intros l. split; [apply first_occ_NoDup|intros k; apply first_occ_In]. Qed.
+
+Lemma all_dot_exclusion_edges : forall u s, NoDup (ids_t s) ->
+  dot_edges u true s = flat_map (fun c => dot_edge u (s, c) :: dot_edges u true c) (rch s) /\
+  dot_edges u false s = flat_map (fun c => dot_edges u true c) (rch s) /\
+  Permutation (dot_edges u true s) (map (fun c => dot_edge u (s, c)) (rch s) ++ dot_edges u false s).
+Proof.
+  intros u s H. exact (conj (dot_edges_with_children u s)
+                            (conj (dot_edges_without_children u s H) (dot_edges_exclusion_perm u s H))).
+Qed.
+
+Lemma all_mermaid_table : forall u a s,
+  map fst (mer_map u a s) = first_occ (map (key u) (export a s)) /\
+  map snd (mer_map u a s) = seq (if a then 0 else 1) (length (first_occ (map (key u) (export a s)))).
+Proof. intros u a s. exact (conj (mer_map_keys u a s) (mer_map_indices u a s)). Qed.
+
+Lemma all_mermaid_node_lines : forall u a s,
+  map (fun d : mnode => fst (fst d)) (mer_nodes u a s) = map snd (mer_map u a s) /\
+  (forall i nm r, In (i, nm, r) (mer_nodes u a s) ->
+     exists n, In (key u n, i) (mer_map u a s) /\ find (has_key u (key u n)) (export a s) = Some n /\
+               nm = rname n /\ r = Nat.eqb i 0).
+Proof.
+  intros u a s. split.
+  - rewrite mer_nodes_indices, mer_map_indices. reflexivity.
+  - exact (mer_nodes_lines u a s).
+Qed.
+
+Lemma all_mermaid_templates :
+  tokenize MERMAID_DEFAULT_EDGE_TEMPLATE = Some [TField F_from_id; TLit S_arrow; TField F_to_id] /\
+  tokenize MERMAID_DEFAULT_EDGE_TEMPLATE_TYPED
+    = Some [TField F_from_id; TLit S_tarrow1; TField F_kind; TLit S_tarrow2; TField F_to_id] /\
+  tokenize MERMAID_DEFAULT_NODE_TEMPLATE = Some [TField F_node_name].
+Proof. exact (conj edge_template_tokens (conj typed_edge_template_tokens node_template_tokens)). Qed.
+
+Lemma all_mermaid_line_text : forall i j k nm,
+  mer_edge_text (Some i, Some j, None) = Some (dec i ++ S_arrow ++ dec j) /\
+  mer_edge_text (Some i, Some j, Some k) = Some (dec i ++ S_tarrow1 ++ k ++ S_tarrow2 ++ dec j) /\
+  mer_node_text (i, nm, false) = Some (dec i ++ [40; 34]%Z ++ nm ++ [34; 41]%Z) /\
+  undec (dec i) = Some i.
+Proof.
+  intros i j k nm.
+  exact (conj (mer_edge_text_plain i j) (conj (mer_edge_text_typed i j k) (conj (mer_node_text_plain i nm) (undec_dec i)))).
+Qed.
+
+Lemma all_rdf_attributes_of_node : forall fx a s g,
+  (forall nm, In (TName g nm) (rdf_of_node fx a s) <-> exists n, In n (export a s) /\ g = RLit (rdid n) /\ nm = rname n) /\
+  (forall k, In (TKind g k) (rdf_of_node fx a s) <-> exists n, In n (export a s) /\ g = RLit (rdid n) /\ rkind n = Some k) /\
+  (forall i, In (TIndex g i) (rdf_of_node fx a s) <->
+             exists p c, In p (pre s) /\ nth_error (rch p) i = Some c /\ g = RLit (rdid c)).
+Proof.
+  intros fx a s g. split; [|split].
+  - intros nm. apply rdf_of_node_name.
+  - intros k. apply rdf_of_node_kind.
+  - intros i. apply rdf_of_node_index.
+Qed.
+
+Lemma all_rdf_attributes_of_tree : forall fx tn root g,
+  (forall nm, In (TName g nm) (rdf_of_tree fx tn root) <->
+              (g = RSys /\ nm = tn) \/ exists n, In n (pre_f (rch root)) /\ g = RLit (rdid n) /\ nm = rname n) /\
+  (forall k, In (TKind g k) (rdf_of_tree fx tn root) <->
+             exists n, In n (pre_f (rch root)) /\ g = RLit (rdid n) /\ rkind n = Some k) /\
+  (forall i, In (TIndex g i) (rdf_of_tree fx tn root) <->
+             exists p c, In p (pre root) /\ nth_error (rch p) i = Some c /\ g = RLit (rdid c)).
+Proof.
+  intros fx tn root g. split; [|split].
+  - intros nm. apply rdf_of_tree_name.
+  - intros k. apply rdf_of_tree_kind.
+  - intros i. apply rdf_of_tree_index.
+Qed.
+
+Lemma all_dot_mapper_sets_one_attribute : forall k v d,
+  aget k (dset k v d) = Some v /\
+  (forall k2, k2 <> k -> aget k2 (dset k v d) = aget k2 d) /\
+  map fst (dset k v d) = (if existsb (text_eqb k) (map fst d) then map fst d else map fst d ++ [k]).
+Proof.
+  intros k v d. exact (conj (dset_get_same k v d) (conj (fun k2 => dset_get_other k v d k2) (dset_keys k v d))).
 Qed.
